@@ -572,6 +572,59 @@ Definition pg_src_type_is (c : pg_cst) (h : pg_val) (t : pg_key) : pg_cst * bool
 
 Definition pg_remove1 (x : N) (l : list N) : list N := filter (fun y => negb (x =? y)) l.
 
+(* reserve_objects, the part for an indirect object: visiting / object_map / reservation / to_copy.
+   The boolean tells whether the children are walked. *)
+Definition pg_reserve_head (h : pg_val) (top : bool) (c : pg_cst) : pg_cst * bool :=
+  match h with
+  | PvRef og =>
+      if pg_memN og (c_visiting c) then (c, false)
+      else
+        let c := mkPgCst (c_src c) (c_dst c) (c_omap c) (og :: c_visiting c) (c_tocopy c) (c_err c) in
+        match pg_omap_find (c_omap c) og with
+        | Some l =>
+            let '(c, is_page) := if top then pg_src_type_is c h k_Page else (c, false) in
+            if top && is_page && pg_is_null (c_dst c) (PvRef l)
+            then (mkPgCst (c_src c) (c_dst c) (c_omap c) (c_visiting c) (og :: c_tocopy c) (c_err c), true)
+            else (mkPgCst (c_src c) (c_dst c) (c_omap c) (pg_remove1 og (c_visiting c)) (c_tocopy c) (c_err c), false)
+        | None =>
+            let '(d', l) :=
+              if pg_is_stream (pd_store (c_src c)) h
+              then pg_alloc (c_dst c) (PcStream [] [] 0)
+              else pg_alloc (c_dst c) (PcObj PvNull) in
+            let c := mkPgCst (c_src c) d' ((og, l) :: c_omap c) (c_visiting c) (c_tocopy c) (c_err c) in
+            let '(c, is_page) := if top then (c, false) else pg_src_type_is c h k_Page in
+            if negb top && is_page
+            then (mkPgCst (c_src c) (c_dst c) (c_omap c) (pg_remove1 og (c_visiting c)) (c_tocopy c) (c_err c), false)
+            else (mkPgCst (c_src c) (c_dst c) (c_omap c) (c_visiting c) (og :: c_tocopy c) (c_err c), true)
+        end
+  | _ => (c, true)
+  end.
+
+(* the walk over the children (array items, non-null dictionary values, the dictionary of a stream) *)
+Definition pg_reserve_kids (rec : pg_val -> pg_cst -> pg_cst) (h : pg_val) (c : pg_cst) : pg_cst :=
+  let ss := pd_store (c_src c) in
+  let on_dict (d : pg_dict) (c : pg_cst) :=
+    fold_left (fun c (kv : pg_key * pg_val) => if pg_is_null (pd_store (c_src c)) (snd kv) then c else rec (snd kv) c) d c in
+  match h with
+  | PvRef og =>
+      match pg_lookup ss og with
+      | Some (PcStream d _ _) => on_dict d c          (* reserve_objects(foreign.getDict()): a direct dictionary *)
+      | Some (PcObj (PvArr l)) => fold_left (fun c x => rec x c) l c
+      | Some (PcObj (PvDict d)) => on_dict d c
+      | _ => c
+      end
+  | PvArr l => fold_left (fun c x => rec x c) l c
+  | PvDict d => on_dict d c
+  | _ => c
+  end.
+
+(* visiting.erase(foreign) *)
+Definition pg_reserve_done (h : pg_val) (c : pg_cst) : pg_cst :=
+  match h with
+  | PvRef og => mkPgCst (c_src c) (c_dst c) (c_omap c) (pg_remove1 og (c_visiting c)) (c_tocopy c) (c_err c)
+  | _ => c
+  end.
+
 (* reserve_objects.  fuel bounds the depth of the walk. *)
 Fixpoint pg_reserve (fuel : nat) (h : pg_val) (top : bool) (c : pg_cst) : pg_cst :=
   match fuel with
@@ -586,62 +639,16 @@ Fixpoint pg_reserve (fuel : nat) (h : pg_val) (top : bool) (c : pg_cst) : pg_cst
       | None =>
         if is_pages then c
         else
-          (* the indirect part; "go" tells whether the children are walked *)
-          let '(c, go) :=
-            match h with
-            | PvRef og =>
-                if pg_memN og (c_visiting c) then (c, false)
-                else
-                  let c := mkPgCst (c_src c) (c_dst c) (c_omap c) (og :: c_visiting c) (c_tocopy c) (c_err c) in
-                  match pg_omap_find (c_omap c) og with
-                  | Some l =>
-                      let '(c, is_page) := if top then pg_src_type_is c h k_Page else (c, false) in
-                      if top && is_page && pg_is_null (c_dst c) (PvRef l)
-                      then (mkPgCst (c_src c) (c_dst c) (c_omap c) (c_visiting c) (og :: c_tocopy c) (c_err c), true)
-                      else (mkPgCst (c_src c) (c_dst c) (c_omap c) (pg_remove1 og (c_visiting c)) (c_tocopy c) (c_err c), false)
-                  | None =>
-                      let '(d', l) :=
-                        if pg_is_stream (pd_store (c_src c)) h
-                        then pg_alloc (c_dst c) (PcStream [] [] 0)
-                        else pg_alloc (c_dst c) (PcObj PvNull) in
-                      let c := mkPgCst (c_src c) d' ((og, l) :: c_omap c) (c_visiting c) (c_tocopy c) (c_err c) in
-                      let '(c, is_page) := if top then (c, false) else pg_src_type_is c h k_Page in
-                      if negb top && is_page
-                      then (mkPgCst (c_src c) (c_dst c) (c_omap c) (pg_remove1 og (c_visiting c)) (c_tocopy c) (c_err c), false)
-                      else (mkPgCst (c_src c) (c_dst c) (c_omap c) (c_visiting c) (og :: c_tocopy c) (c_err c), true)
-                  end
-            | _ => (c, true)
-            end in
+          let '(c, go) := pg_reserve_head h top c in
           match c_err c with
           | Some _ => c
           | None =>
             if negb go then c
             else
-              let ss := pd_store (c_src c) in
-              let c :=
-                match h with
-                | PvRef og =>
-                    match pg_lookup ss og with
-                    | Some (PcStream d _ _) =>
-                        (* reserve_objects(foreign.getDict()): a direct dictionary *)
-                        fold_left (fun c kv => if pg_is_null (pd_store (c_src c)) (snd kv) then c else pg_reserve f (snd kv) false c) d c
-                    | Some (PcObj (PvArr l)) => fold_left (fun c x => pg_reserve f x false c) l c
-                    | Some (PcObj (PvDict d)) =>
-                        fold_left (fun c kv => if pg_is_null (pd_store (c_src c)) (snd kv) then c else pg_reserve f (snd kv) false c) d c
-                    | _ => c
-                    end
-                | PvArr l => fold_left (fun c x => pg_reserve f x false c) l c
-                | PvDict d =>
-                    fold_left (fun c kv => if pg_is_null (pd_store (c_src c)) (snd kv) then c else pg_reserve f (snd kv) false c) d c
-                | _ => c
-                end in
+              let c := pg_reserve_kids (fun x c => pg_reserve f x false c) h c in
               match c_err c with
               | Some _ => c
-              | None =>
-                match h with
-                | PvRef og => mkPgCst (c_src c) (c_dst c) (c_omap c) (pg_remove1 og (c_visiting c)) (c_tocopy c) (c_err c)
-                | _ => c
-                end
+              | None => pg_reserve_done h c
               end
           end
       end
